@@ -663,10 +663,42 @@ fn one(files: &HashMap<String, String>, main: &str, base: Option<&str>) -> Value
             format!("(2 {})", panic_site(&msg))
         }
     };
+    // the definition graph the recursion check works on: resolve() again on every module, edges as
+    // ((module, declaration) (module, declaration)) in the numbering of the transcription
+    let mut edges: Vec<String> = Vec::new();
+    let mut edges_ok = true;
+    let mut edges_why = String::new();
+    for l in locs.iter() {
+        let loc = Locator::try_from(l.as_str()).unwrap();
+        match std::panic::catch_unwind(std::panic::AssertUnwindSafe(|| oal_compiler::verif::resolve(&mods, &loc))) {
+            Ok(Ok(graph)) => {
+                use petgraph::visit::{EdgeRef, IntoEdgeReferences};
+                for e in (&graph).edge_references() {
+                    let mut ends = Vec::new();
+                    for ix in [e.source(), e.target()] {
+                        let n = graph.node_weight(ix).unwrap().node(&mods);
+                        let m = tr.modnum.get(n.tree().locator().url().as_str()).copied();
+                        let i = m.and_then(|m| tr.declnum.get(&(m, n.index().to_string())).copied());
+                        match (m, i) {
+                            (Some(m), Some(i)) => ends.push(format!("{} {}", m, i)),
+                            // bindings of parameters and rec variables are nodes of the graph too (never a source): not uses of declarations
+                            _ => {}
+                        }
+                    }
+                    if ends.len() == 2 {
+                        edges.push(format!("({} {})", ends[0], ends[1]));
+                    }
+                }
+            }
+            Ok(Err(e)) => { edges_ok = false; edges_why = format!("resolve error {}", e); }
+            Err(_) => { edges_ok = false; edges_why = "resolve panic".to_owned(); }
+        }
+    }
     let strs_sx = list(tr.strings.iter().map(|s| text_sx(s)).collect());
     let floats: Vec<f64> = tr.floats.iter().map(|b| f64::from_bits(*b)).collect();
     json!({"status": "ok", "prog": prog, "tenv": tenv, "result": result, "strings": tr.strings, "strs_sx": strs_sx,
-           "names_sx": list(names), "floats": floats, "doc": doc, "doc_base": doc_base, "nmods": locs.len()})
+           "names_sx": list(names), "floats": floats, "doc": doc, "doc_base": doc_base, "nmods": locs.len(),
+           "graph_edges": if edges_ok { json!(edges) } else { json!({"why": edges_why}) }})
 }
 
 pub fn run() {
